@@ -18,8 +18,12 @@ fn chain_case(rng: &mut Rng, rec: &mut Rec) {
     cfg.orig.push(("x-keep".into(), b"t0-keep".to_vec()));
     cfg.orig.push(("authorization".into(), b"t0-Bearer-secret".to_vec()));
     cfg.orig.push(("cookie".into(), b"t0-session=original".to_vec()));
-    if rng.chance(1, 2) {
-        cfg.orig.push(("Cookie".into(), b"t0-second=cookie".to_vec()));
+    for k in 0..rng.usize_in(0, 3) {
+        cfg.orig.push(((*rng.pick(&["Cookie", "cookie"])).to_string(), format!("t0-more{}=cookie", k).into_bytes()));
+    }
+    if rng.chance(1, 3) {
+        // a second credential line after the cookies
+        cfg.orig.push(("Authorization".into(), b"t0-Basic-second".to_vec()));
     }
     if needs_body(method) && rng.chance(2, 3) {
         cfg.orig.push(("content-length".into(), b"1234".to_vec()));
